@@ -375,13 +375,23 @@ def url_quote_plus(v, name='(Unknown name)', md={}):
 def url_unquote(v, name='(Unknown name)', md={}):
     if isinstance(v, bytes):
         return urllib.parse.unquote(v.decode('utf-8')).encode('utf-8')
-    return urllib.parse.unquote(str(v))
+    # Keep tainted strings as tainted strings here.
+    wastainted = isinstance(v, TaintedString)
+    v = urllib.parse.unquote(str(v))
+    if wastainted and '<' in v:
+        v = TaintedString(v)
+    return v
 
 
 def url_unquote_plus(v, name='(Unknown name)', md={}):
     if isinstance(v, bytes):
         return urllib.parse.unquote_plus(v.decode('utf-8')).encode('utf-8')
-    return urllib.parse.unquote_plus(str(v))
+    # Keep tainted strings as tainted strings here.
+    wastainted = isinstance(v, TaintedString)
+    v = urllib.parse.unquote_plus(str(v))
+    if wastainted and '<' in v:
+        v = TaintedString(v)
+    return v
 
 
 def newline_to_br(v, name='(Unknown name)', md={}):
@@ -412,6 +422,8 @@ def dollars_and_cents(v, name='(Unknown name)', md={}):
 def thousands_commas(v, name='(Unknown name)', md={},
                      thou=re.compile(
                          r"([0-9])([0-9][0-9][0-9]([,.]|$))").search):
+    # Keep tainted strings as tainted strings here.
+    wastainted = isinstance(v, TaintedString)
     v = str(v)
     vl = v.split('.')
     if not vl:
@@ -427,7 +439,10 @@ def thousands_commas(v, name='(Unknown name)', md={},
         l_ = mo.start(0)
         v = v[:l_ + 1] + ',' + v[l_ + 1:]
         mo = thou(v)
-    return v + s
+    v = v + s
+    if wastainted and '<' in v:
+        v = TaintedString(v)
+    return v
 
 
 def whole_dollars_with_commas(v, name='(Unknown name)', md={}):
